@@ -14,7 +14,11 @@
   The harness enforces iteration budgets on the real iterators (`C08:iteration-budget-exceeded`).
 
   -- [V] the real iterators stay within these step bounds: carried by correspondence + oracle only (the per-topic streams compare the drained real iterators with the models item by item)
-  -- [V] termination of thick lines / polylines / triangles / rounded rectangles / sectors (`ThickPoints`, scanline intersections): the models use fuel and report `stuck`, no closed form is proved; carried by correspondence + oracle only
+  Stroked lines, stroked polylines, styled triangles, rounded rectangles, sectors and arcs are in
+  Props/C08/TerminationThick.lean (proved for all inputs: the drains reach `None`; step bounds: box
+  area for lines / sectors / arcs / rounded rectangles, `rows * (vertices + 3) + vertices + 2` scanlines
+  for polylines, `3 * (rows + 1)` scanlines for triangles, pixel count = total scanline length).
+  -- [V] stroked polylines / styled triangles: the LENGTH of one scanline is bounded by the width of the bounding box only under C02's decidable box guards, so the pixel count of `pixels()` is proved to be the total length of at most `rows * (n + 3) + n + 2` resp. `3 * (rows + 1)` scanlines for ALL inputs, and `<= (rows * (n + 3) + n + 2) * box width` for polylines under `PolyBBoxGuard` (`polyline_pixels_le_box`); for triangles `<= 3 * (rows + 1) * box width` whenever the pixels lie in the box (`triangle_pixels_le_box_of_in_box`; instance under `TriStrokeGuard`: `triangle_stroke_pixels_le_box`); outside those guards no box-area bound is proved, and the triangle pixel iterator's run assumes `i32` vertices for 1 px / Inside strokes (`TriNeedsI32 -> TriI32`): carried by correspondence + oracle only
 -/
 import EG.Lemmas.RectPoints
 import EG.Lemmas.LineProps
